@@ -137,6 +137,75 @@ def sub_seed(seed: int, i: int, salt: str = "") -> int:
 _worker_fn = None
 _worker_state = None
 
+# ---- line coverage of /repo's package by the correspondence / oracle runs (sys.monitoring, 3.12+):
+# which lines of the implementation the checks actually execute - evidence of the tie's reach
+COVERED: set = set()          # (relative file name, line) seen by the parent
+_cov_new: list = []           # per worker: lines first seen since the last result was returned
+_cov_on = False
+
+
+def _repo() -> Path:
+    return Path(os.environ.get("D2P_REPO", "/repo"))
+
+
+def _cov_start():
+    global _cov_on
+    mon = getattr(sys, "monitoring", None)
+    if mon is None or _cov_on:
+        return
+    pkg = str((_repo() / "docx2python").resolve()) + os.sep
+    tool = mon.COVERAGE_ID
+    try:
+        mon.use_tool_id(tool, "d2p-verif")
+    except ValueError:
+        return
+
+    def on_line(code, line):
+        fn = code.co_filename
+        if fn.startswith(pkg):
+            _cov_new.append((fn[len(pkg):], line))
+        return mon.DISABLE
+
+    mon.register_callback(tool, mon.events.LINE, on_line)
+    mon.set_events(tool, mon.events.LINE)
+    _cov_on = True
+
+
+def executable_lines() -> dict:
+    """relative file name -> set of line numbers that carry code (from the compiled code objects)"""
+    out = {}
+    for f in sorted((_repo() / "docx2python").glob("*.py")):
+        try:
+            code = compile(f.read_text(), str(f), "exec")
+        except SyntaxError:
+            continue
+        lines = set()
+        stack = [code]
+        while stack:
+            c = stack.pop()
+            # function bodies only (CO_OPTIMIZED): module and class bodies run at import time,
+            # before the monitoring starts
+            if c.co_flags & 0x1:
+                first = c.co_firstlineno
+                for _, _, ln in c.co_lines():
+                    if ln is not None and ln != first:
+                        lines.add(ln)
+            stack.extend(k for k in c.co_consts if hasattr(k, "co_lines"))
+        out[f.name] = lines
+    return out
+
+
+def coverage_summary() -> dict:
+    ex = executable_lines()
+    summ = {}
+    for name, lines in ex.items():
+        hit = {ln for (fn, ln) in COVERED if fn == name} & lines
+        miss = sorted(lines - hit)
+        summ[name] = {"executable": len(lines), "executed": len(hit), "not_executed": miss[:400]}
+    tot = sum(v["executable"] for v in summ.values())
+    hit = sum(v["executed"] for v in summ.values())
+    return {"files": summ, "executable": tot, "executed": hit}
+
 
 def _init_worker(fn_module: str, fn_name: str, repo: str):
     global _worker_fn, _worker_state
@@ -150,6 +219,10 @@ def _init_worker(fn_module: str, fn_name: str, repo: str):
     import common
 
     _worker_state = {"model": common.Model()}
+    try:
+        _cov_start()
+    except Exception:  # noqa: BLE001  (coverage is evidence only; an exception here would hang the pool)
+        pass
 
 
 def _run_one(arg):
@@ -160,6 +233,9 @@ def _run_one(arg):
             x = m.take_small()
             if x:
                 r["_xcheck"] = x
+        if isinstance(r, dict) and _cov_new:
+            r["_cov"] = list(_cov_new)
+            _cov_new.clear()
         return r
     except Exception as ex:  # noqa: BLE001
         return {"harness_error": f"{type(ex).__name__}: {ex}", "arg": repr(arg)[:200],
@@ -172,12 +248,17 @@ def sweep(fn_module: str, fn_name: str, args: list, workers: int = WORKERS, chun
     if workers <= 1 or len(args) <= 2:
         _init_worker(fn_module, fn_name, "")
         try:
-            return [_run_one(a) for a in args]
+            results = [_run_one(a) for a in args]
         finally:
             _worker_state["model"].close()
-    ctx = mp.get_context("fork")
-    with ctx.Pool(workers, initializer=_init_worker, initargs=(fn_module, fn_name, "")) as pool:
-        return pool.map(_run_one, args, chunksize=chunksize)
+    else:
+        ctx = mp.get_context("fork")
+        with ctx.Pool(workers, initializer=_init_worker, initargs=(fn_module, fn_name, "")) as pool:
+            results = pool.map(_run_one, args, chunksize=chunksize)
+    for r in results:
+        if isinstance(r, dict) and "_cov" in r:
+            COVERED.update(tuple(x) for x in r.pop("_cov"))
+    return results
 
 
 # ------------------------------------------------------------------ findings
